@@ -7,6 +7,8 @@ Fails2(o) ==
   Check("C39:return-value:" \o Kind(o), o.ret = ExpectedRet(o))
   \cup (IF o.beh = "VfProbe" /\ o.ret = ExpectedRet(o) /\ o.ret # -1 THEN
           Check("C39:operator", o.kdiag = ExpectedK(o))
+          \* no operator requested (K[0] = 0 or 100): the K array, which is also an input, is left as it was
+          \cup Check("C39:operator-written-though-not-requested", (~Fails(o) /\ ~IsPrediction(o.k0) /\ Base(o.k0) = 0) => o.k_untouched)
           \cup Check("C39:speed-of-sound", (o.sos = 11) = (~Fails(o) /\ Sos(o.k0)))
           \cup (IF Delivers(o) THEN Check("C39:results", o.forces = ExpectedForces(o) /\ o.isvs = ExpectedIsvs(o)
                                                           /\ o.se = 3 + o.p0 + 1 /\ o.de = 205) ELSE {})
